@@ -1,9 +1,13 @@
 package c19
 
 import (
+	"encoding/json"
 	"os"
+	"path/filepath"
 	"strings"
 	"testing"
+
+	"github.com/luthersystems/elps/verifharness/vcommon"
 )
 
 // TestExplain is a builder's tool, not part of the check: it prints, for every
@@ -28,5 +32,143 @@ func TestExplain(t *testing.T) {
 		ds, err := lintArity(src + "\n")
 		r := runProgram(src + "\n")
 		t.Logf("\n%s\n  lint: %v %v\n  run:  %s trace=%d", src, ds, err, r, len(r.Trace))
+	}
+}
+
+// TestEncloseSurvey (builder's tool, C19_SURVEY=1): runs the enclose oracle
+// over a fixed grid (every form x a few heads x every count x three argument
+// spellings) with the pending-finding suppression off and prints each distinct
+// failure key with its first example.
+func TestEncloseSurvey(t *testing.T) {
+	if os.Getenv("C19_SURVEY") == "" {
+		t.Skip("C19_SURVEY not set")
+	}
+	os.Setenv("C19_NO_PENDING", "1")
+	registry()
+	seen := map[string]int{}
+	first := map[string]string{}
+	firstCase := map[string]EncCase{}
+	n := 0
+	run := func(c EncCase) {
+		n++
+		f, _ := (&surveyRunner{}).apply(c)
+		if f != nil {
+			seen[f.Key]++
+			if first[f.Key] == "" {
+				first[f.Key] = f.Msg
+				firstCase[f.Key] = c
+			}
+		}
+	}
+	defer func() {
+		// C19_SURVEY_OUT=dir: store the first (smallest) example of every
+		// pending key as a replay file
+		dir := os.Getenv("C19_SURVEY_OUT")
+		if dir == "" {
+			return
+		}
+		for k, c := range firstCase {
+			if !pendingHead[k] {
+				continue
+			}
+			raw, _ := json.Marshal(c)
+			b, _ := json.MarshalIndent(map[string]any{"property": "C19", "sub": "enclose", "key": k, "msg": first[k], "case": json.RawMessage(raw)}, "", " ")
+			name := strings.NewReplacer("/", "_", "*", "star", "!", "bang").Replace(strings.TrimPrefix(k, "arity/")) + ".json"
+			if err := os.WriteFile(filepath.Join(dir, name), append(b, '\n'), 0o644); err != nil {
+				t.Error(err)
+			}
+		}
+	}()
+	spell := map[string][]string{"lit": {"1", `"s"`, "'(1 2)", "2.5"}, "sym": {"v1", "true", "v2", "false"}, "call": {"(list 1)", "(list)", "(vector 1 2)", "(to-string 1)"}}
+	for _, form := range encFormNames {
+		fm := encForms[form]
+		for _, outer := range append([]string{""}, encOuterNames...) {
+			if outer != "" && (len(fm.Pre) > 0 || len(fm.Post) > 0) {
+				continue
+			}
+			if outer != "" && form != "top" && form != "defconst-value-doc" && form != "thread-first-child1" && form != "quoted-nested" {
+				continue
+			}
+			for _, head := range []string{"cons", "if", "car", "trace", "max", "USER"} {
+				for k := 0; k <= 4; k++ {
+					for sp, pool := range spell {
+						c := EncCase{N: head, Form: form, Outer: outer, Style: sp}
+						if head == "USER" {
+							c.N, c.NUser, c.NSig = "f", true, Sig{Req: 1, Opt: 1}
+						}
+						switch fm.kind() {
+						case "entry1":
+							if k != 1 {
+								continue
+							}
+							c.Args = []string{pool[0]}
+						case "fentry":
+							if k == 0 || sp != "lit" {
+								continue
+							}
+							c.Args = append([]string{"(a)"}, pool[:k-1]...)
+						case "formals":
+							if sp != "lit" || k > 3 {
+								continue
+							}
+							c.Args = []string{"a", "b", "c"}[:k]
+						default:
+							c.Args = append([]string{}, pool[:k]...)
+						}
+						run(c)
+					}
+				}
+			}
+		}
+	}
+	t.Logf("%d cases, %d distinct failure keys", n, len(seen))
+	for _, k := range sortedKeys(seen) {
+		t.Logf("%5d  %s\n%s\n", seen[k], k, first[k])
+	}
+}
+
+type surveyRunner struct{}
+
+func (surveyRunner) apply(c EncCase) (*vcommon.Failure, *vcommon.Ctx) {
+	ctx := &vcommon.Ctx{}
+	return checkEnclose(c, ctx), ctx
+}
+
+// TestPendingFindingsReproduce: every replay stored under pending_findings is a
+// finding of the unchanged tree that the enclose oracle currently lets pass
+// (pendingHead).  Each must still fail with its own key; when /repo is repaired
+// this test says which entry of pendingHead has to go.
+func TestPendingFindingsReproduce(t *testing.T) {
+	files, _ := filepath.Glob("pending_findings/*.json")
+	if len(files) == 0 {
+		t.Skip("no pending findings stored")
+	}
+	keys := map[string]bool{}
+	for _, fn := range files {
+		b, err := os.ReadFile(fn)
+		if err != nil {
+			t.Fatal(err)
+		}
+		var v vcommon.Violation
+		var c EncCase
+		if err := json.Unmarshal(b, &v); err != nil {
+			t.Fatalf("%s: %v", fn, err)
+		}
+		if err := json.Unmarshal(v.Case, &c); err != nil {
+			t.Fatalf("%s: %v", fn, err)
+		}
+		if !pendingHead[v.Key] {
+			t.Errorf("%s: key %s is not in pendingHead", fn, v.Key)
+		}
+		keys[v.Key] = true
+		f := checkEnclose(c, &vcommon.Ctx{Replay: true})
+		if f == nil || f.Key != v.Key {
+			t.Errorf("%s: stored as %s, the oracle now says %v -- repaired? then drop the key from pendingHead", fn, v.Key, f)
+		}
+	}
+	for k := range pendingHead {
+		if !keys[k] {
+			t.Errorf("pendingHead lists %s but pending_findings holds no replay for it", k)
+		}
 	}
 }
